@@ -3,9 +3,12 @@ import Mouette.Lemmas.C04Basic
 import Mouette.Lemmas.C04Source
 /-
 C04 (round 4) — bridges for the READERS translated from the source (`Generated/C04Readers.lean`): `import_xyz` (line loop) and
-`parse_tet_data` (deque, header counts, `for _ in range(n)` loops) compute what the hand models `importXyz` / `importTet` compute.
+`parse_tet_data`, `parse_off_data` (deque, header counts, `for _ in range(n)` loops, per-record if-chain) and `parse_vertex` + `parse_obj_data`
+(line loop filling the mesh and the list of face records, then the loop over the face records) compute what the hand models
+`importXyz` / `importTet` / `importOff` / `importObj` compute.
 -/
 set_option linter.unusedSimpArgs false
+set_option linter.unusedVariables false
 namespace Mouette.IOS
 open Mouette.IO Mouette.Generated
 variable {C : Type}
@@ -120,5 +123,248 @@ theorem parseTet_bridge (cd : Codec C) (file : File) : C04R.parseTet cd file = i
             · have : ¬ rest.length < nv + nc := by omega
               simp only [h2, this, if_false]
               cases mapOpt readTetRec (List.take nc (List.drop nv rest)) <;> simp [Raw.empty]
+
+
+/-! ### off -/
+
+
+theorem popFold_eq (step : Raw C → Line → Option (Raw C)) : ∀ (n : Nat) (d : File) (r : Raw C),
+    popFold step n (d, r) = if d.length < n then none else (foldOpt step r (d.take n)).map (fun r' => (d.drop n, r'))
+  | 0, d, r => by simp [popFold, iter, foldOpt]
+  | n + 1, [], r => by simp [popFold, iter, popFoldStep, popLine]
+  | n + 1, l :: t, r => by
+    have ih := popFold_eq step n t
+    unfold popFold at ih ⊢
+    rw [iter_succ]
+    have h1 : popFoldStep step (l :: t, r) = (step r l).map (fun r' => (t, r')) := by
+      unfold popFoldStep popLine; cases hg : step r l <;> simp [hg]
+    rw [h1]
+    cases hg : step r l with
+    | none => simp [foldOpt, hg]
+    | some x =>
+      simp only [Option.map_some, Option.bind_some, ih]
+      by_cases hlt : t.length < n
+      · simp [hlt]
+      · simp only [hlt, List.length_cons, Nat.add_lt_add_iff_right, if_false, List.take_succ_cons, List.drop_succ_cons, foldOpt, hg]
+
+theorem offRecord_bridge (r : Raw C) (l : Line) : C04R.offRecord r l = stepOff r l := by
+  unfold C04R.offRecord stepOff
+  cases l with
+  | nil => simp [tokAt]
+  | cons t rest =>
+    simp only [tokAt, List.getElem?_cons_zero, Option.bind_some]
+    cases ht : readInt t with
+    | none => rfl
+    | some k =>
+      simp only [slice, readNat, List.take_succ_cons, List.drop_succ_cons, List.drop_zero, beq_iff_eq]
+      by_cases h3 : k = 3
+      · simp only [h3, if_true]; cases mapOpt readIdx0 (List.take 3 rest) <;> rfl
+      · by_cases h4 : k = 4
+        · have h43 : ¬ ((4 : Int) = 3) := by decide
+          have h42 : ¬ ((4 : Int) = 2) := by decide
+          simp only [h4, h43, h42, if_true, if_false]; cases mapOpt readIdx0 (List.take 4 rest) <;> rfl
+        · by_cases h2 : k = 2 <;> simp [h2, h3, h4]
+
+theorem parseOff_bridge (cd : Codec C) (file : File) : C04R.parseOff cd file = importOff cd file := by
+  unfold C04R.parseOff importOff
+  match file with
+  | [] => simp [popLine]
+  | [] :: rest => simp [popLine, tokAt]
+  | [h :: _] =>
+    simp only [popLine, tokAt, List.getElem?_cons_zero]
+    cases h <;> simp
+  | (h :: _) :: l2 :: rest =>
+    simp only [popLine, tokAt, List.getElem?_cons_zero]
+    by_cases hh : h = Tok.kw "OFF"
+    · subst hh
+      simp only [bne_self_eq_false, Bool.false_eq_true, if_false, if_true]
+      match l2 with
+      | [] => simp [three]
+      | [a] => simp [three]
+      | [a, b] => simp [three]
+      | a :: b :: c :: e :: t => simp [three]
+      | [a, b, c] =>
+        simp only [three, readNat]
+        cases ha : readIdx0 a with
+        | none => rfl
+        | some nv =>
+          cases hb : readIdx0 b with
+          | none => rfl
+          | some nf =>
+            cases hc : readInt c with
+            | none => rfl
+            | some ne =>
+              simp only [popEach_eq, popFold_eq, foldl_snoc_verts]
+              have hcd : (fun l => (mapOpt (readNum cd) l).bind vec3) = readCoords cd := by funext l; rw [readCoords_eq]
+              have hst : (C04R.offRecord : Raw C → Line → Option (Raw C)) = stepOff := by funext r l; exact offRecord_bridge r l
+              rw [hcd, hst]
+              by_cases h1 : rest.length < nv
+              · have : rest.length < nv + nf := by omega
+                simp [h1, this]
+              · simp only [h1, if_false]
+                cases hv : mapOpt (readCoords cd) (List.take nv rest) with
+                | none => by_cases h3 : rest.length < nv + nf <;> simp [h3]
+                | some vs =>
+                  simp only [Option.map_some, List.length_drop]
+                  by_cases h2 : rest.length - nv < nf
+                  · have : rest.length < nv + nf := by omega
+                    simp [h2, this]
+                  · have : ¬ rest.length < nv + nf := by omega
+                    simp only [h2, this, if_false, Raw.empty, List.nil_append]
+                    cases hf : foldOpt stepOff ({ verts := vs } : Raw C) (List.take nf (List.drop nv rest)) <;> simp [hf]
+    · have hne : (h != Tok.kw "OFF") = true := by simp [hh]
+      simp only [hne, if_true]
+      cases h with
+      | kw k =>
+        have hk : k ≠ "OFF" := fun e => hh (by rw [e])
+        match l2 with
+        | [] => rfl
+        | [a] => rfl
+        | [a, b] => rfl
+        | a :: b :: c :: e :: t => rfl
+        | [a, b, c] => simp [hk]
+      | int i => rfl
+      | txt s => rfl
+
+/-! ### obj -/
+
+
+abbrev vids (fs : List (List (Nat × Int × Int))) : List (List Nat) := fs.map (fun F => F.map (·.1))
+
+/-- corner triples produced by `parse_vertex` on plain tokens -/
+def Plain (F : List (Nat × Int × Int)) : Prop := ∀ c ∈ F, c.2.1 = -1 ∧ c.2.2 = -1
+
+theorem mapOpt_parseVertex (ts : List Tok) :
+    mapOpt C04R.parseVertex ts = (mapOpt readIdx1 ts).map (fun f => f.map (fun v => (v, (-1 : Int), (-1 : Int)))) := by
+  induction ts with
+  | nil => rfl
+  | cons t r ih =>
+    unfold mapOpt
+    rw [ih]
+    unfold C04R.parseVertex
+    cases readIdx1 t <;> cases mapOpt readIdx1 r <;> simp
+
+theorem mapOpt_objCorner (F : List (Nat × Int × Int)) (h : Plain F) : mapOpt C04R.objCorner F = some (F.map (·.1)) := by
+  induction F with
+  | nil => rfl
+  | cons c t ih =>
+    have hc := h c (by simp)
+    have ht : Plain t := fun x hx => h x (by simp [hx])
+    unfold mapOpt
+    rw [ih ht]
+    simp [C04R.objCorner, hc.1, hc.2]
+
+theorem mapOpt_faces (fs : List (List (Nat × Int × Int))) (h : ∀ F ∈ fs, Plain F) :
+    mapOpt (fun F => mapOpt C04R.objCorner F) fs = some (vids fs) := by
+  induction fs with
+  | nil => rfl
+  | cons F t ih =>
+    unfold mapOpt
+    rw [mapOpt_objCorner F (h F (by simp)), ih (fun G hG => h G (by simp [hG]))]
+    simp [vids]
+
+/-- the model state that corresponds to (mesh, pending face records) -/
+def merge (s : Raw C × List (List (Nat × Int × Int))) : Raw C := { s.1 with faces := s.1.faces ++ vids s.2 }
+
+theorem vec3_take3 (cd : Codec C) (rest : Line) :
+    (mapOpt (readNum cd) (rest.take 3)).bind vec3 =
+      match rest with
+      | a :: b :: c :: _ =>
+        match readNum cd a, readNum cd b, readNum cd c with
+        | some x, some y, some z => some (x, y, z)
+        | _, _, _ => none
+      | _ => none := by
+  match rest with
+  | [] => simp [mapOpt, vec3]
+  | [a] => cases ha : readNum cd a <;> simp [mapOpt, vec3, ha]
+  | [a, b] => cases ha : readNum cd a <;> cases hb : readNum cd b <;> simp [mapOpt, vec3, ha, hb]
+  | a :: b :: c :: t =>
+    cases ha : readNum cd a <;> cases hb : readNum cd b <;> cases hc : readNum cd c <;> simp [mapOpt, vec3, ha, hb, hc]
+
+theorem objLine_bridge (cd : Codec C) (s : Raw C × List (List (Nat × Int × Int))) (hp : ∀ F ∈ s.2, Plain F) (l : Line) :
+    match C04R.objLine cd s l with
+    | none => stepObj cd (merge s) l = none
+    | some s' => stepObj cd (merge s) l = some (merge s') ∧ ∀ F ∈ s'.2, Plain F := by
+  unfold C04R.objLine
+  match l with
+  | [] => simp [stepObj]; exact hp
+  | .int i :: rest => simp [stepObj, tokAt]; exact hp
+  | .txt i :: rest => simp [stepObj, tokAt]; exact hp
+  | .kw k :: rest =>
+    simp only [List.isEmpty_cons, Bool.false_eq_true, if_false, tokAt, List.getElem?_cons_zero, beq_iff_eq, Tok.kw.injEq]
+    unfold stepObj
+    simp only []
+    by_cases hv : k = "v"
+    · subst hv
+      simp only [if_true, slice, List.take_succ_cons, List.drop_succ_cons, List.drop_zero, vec3_take3]
+      match rest with
+      | [] => simp
+      | [a] => simp
+      | [a, b] => simp
+      | a :: b :: c :: t =>
+        cases ha : readNum cd a <;> cases hb : readNum cd b <;> cases hc : readNum cd c <;> simp [merge, ha, hb, hc] <;> exact hp
+    · simp only [hv, if_false]
+      by_cases hvn : k = "vn"
+      · subst hvn; simp
+      · simp only [hvn, if_false]
+        by_cases hvt : k = "vt"
+        · subst hvt; simp
+        · simp only [hvt, if_false]
+          by_cases hf : k = "f"
+          · subst hf
+            simp only [if_true, slice, List.drop_succ_cons, List.drop_zero, mapOpt_parseVertex]
+            cases hr : mapOpt readIdx1 rest with
+            | none => simp
+            | some f =>
+              simp only [Option.map_some, merge, vids, List.map_append, List.map_cons, List.map_nil, List.map_map]
+              refine ⟨?_, ?_⟩
+              · simp [List.append_assoc, Function.comp_def]
+              · intro F hF
+                rcases List.mem_append.mp hF with h | h
+                · exact hp F h
+                · have : F = f.map (fun v => (v, (-1 : Int), (-1 : Int))) := by simpa using h
+                  subst this
+                  intro c hc
+                  obtain ⟨v, _, rfl⟩ := List.mem_map.mp hc
+                  exact ⟨rfl, rfl⟩
+          · simp only [hf, if_false]
+            by_cases hl : k = "l"
+            · subst hl
+              simp only [if_true]
+              match rest with
+              | [] => simp
+              | [a] => cases ha : readIdx1 a <;> simp [ha]
+              | a :: b :: t =>
+                cases ha : readIdx1 a <;> cases hb : readIdx1 b <;> simp [merge, ha, hb] <;> exact hp
+            · simp [hl, hvn, hvt]; exact hp
+
+theorem foldObj_bridge (cd : Codec C) : ∀ (file : File) (s : Raw C × List (List (Nat × Int × Int))) (hp : ∀ F ∈ s.2, Plain F),
+    match foldOpt (C04R.objLine cd) s file with
+    | none => foldOpt (stepObj cd) (merge s) file = none
+    | some s' => foldOpt (stepObj cd) (merge s) file = some (merge s') ∧ ∀ F ∈ s'.2, Plain F
+  | [], s, hp => by simp [foldOpt]; exact hp
+  | l :: t, s, hp => by
+    have h1 := objLine_bridge cd s hp l
+    unfold foldOpt
+    cases hl : C04R.objLine cd s l with
+    | none => rw [hl] at h1; simp only [] at h1 ⊢; rw [h1]
+    | some s' =>
+      rw [hl] at h1
+      simp only [] at h1 ⊢
+      rw [h1.1]
+      exact foldObj_bridge cd t s' h1.2
+
+theorem parseObj_bridge (cd : Codec C) (file : File) : C04R.parseObj cd file = importObj cd file := by
+  unfold C04R.parseObj importObj
+  have h := foldObj_bridge cd file (Raw.empty, []) (by simp)
+  have hm : merge ((Raw.empty : Raw C), ([] : List (List (Nat × Int × Int)))) = Raw.empty := by simp [merge, Raw.empty, vids]
+  rw [hm] at h
+  cases hf : foldOpt (C04R.objLine cd) (Raw.empty, []) file with
+  | none => rw [hf] at h; simp only [] at h ⊢; rw [h]
+  | some s' =>
+    rw [hf] at h
+    simp only [] at h ⊢
+    rw [h.1, mapOpt_faces s'.2 h.2]
+    rfl
 
 end Mouette.IOS
